@@ -650,16 +650,59 @@ func (s *Store) fcmp(op Op, a, b *Term) *Term {
 	return s.mk(&Term{Op: op, S: 0, Args: []*Term{a, b}})
 }
 
-func (s *Store) FLt(a, b *Term) *Term { return s.fcmp(OpFLt, a, b) }
-func (s *Store) FLe(a, b *Term) *Term { return s.fcmp(OpFLe, a, b) }
-func (s *Store) FEq(a, b *Term) *Term { return s.fcmp(OpFEq, a, b) }
+// UseFPTheory switches float comparisons back to the solver's FP theory (used to cross-validate
+// the bit-vector encoding below).
+var UseFPTheory = false
+
+// ford maps IEEE bits to a signed integer whose order is the numeric order of the (non-NaN)
+// value: negative values become the negated magnitude; -0 and +0 both map to 0.
+func (s *Store) ford(a *Term) *Term {
+	w := int(a.S)
+	zero := s.BV(w, 0)
+	minInt := s.BV(w, uint64(1)<<(uint(w)-1))
+	return s.Ite(s.SLt(a, zero), s.Sub(minInt, a), a)
+}
+
+func (s *Store) FLt(a, b *Term) *Term {
+	if UseFPTheory || (a.IsConst() && b.IsConst()) {
+		return s.fcmp(OpFLt, a, b)
+	}
+	nn := s.And(s.Not(s.FIsNaN(a)), s.Not(s.FIsNaN(b)))
+	return s.And(nn, s.SLt(s.ford(a), s.ford(b)))
+}
+
+func (s *Store) FLe(a, b *Term) *Term {
+	if UseFPTheory || (a.IsConst() && b.IsConst()) {
+		return s.fcmp(OpFLe, a, b)
+	}
+	nn := s.And(s.Not(s.FIsNaN(a)), s.Not(s.FIsNaN(b)))
+	return s.And(nn, s.SLe(s.ford(a), s.ford(b)))
+}
+
+func (s *Store) FEq(a, b *Term) *Term {
+	if UseFPTheory || (a.IsConst() && b.IsConst()) {
+		return s.fcmp(OpFEq, a, b)
+	}
+	nn := s.And(s.Not(s.FIsNaN(a)), s.Not(s.FIsNaN(b)))
+	return s.And(nn, s.Eq(s.ford(a), s.ford(b)))
+}
 
 func (s *Store) FIsNaN(a *Term) *Term {
 	if a.IsConst() {
 		x := constFloat(a)
 		return s.Bool(x != x)
 	}
-	return s.mk(&Term{Op: OpFIsNaN, S: 0, Args: []*Term{a}})
+	if UseFPTheory {
+		return s.mk(&Term{Op: OpFIsNaN, S: 0, Args: []*Term{a}})
+	}
+	// exponent all ones and non-zero mantissa: magnitude bits above the infinity pattern
+	w := int(a.S)
+	var inf uint64 = 0x7FF0000000000000
+	if w == 32 {
+		inf = 0x7F800000
+	}
+	mag := s.BAnd(a, s.BV(w, (uint64(1)<<(uint(w)-1))-1))
+	return s.ULt(s.BV(w, inf), mag)
 }
 
 // FConv builds a conversion; constants fold natively (Go semantics).
